@@ -117,6 +117,8 @@ def builtin(eng, fn, args, kwargs):
             if h:
                 return h(eng, fn.__name__, args)
             raise Unsupported(fn.__name__ + " on symbolic")
+    if fn is id and len(args) == 1 and isinstance(args[0], (SObj, HList, HDict)):
+        return id(args[0])    # identity of a heap object of the interpreter: concrete and unique while the run lasts
     if fn is itertools.chain:
         out = []
         for a in args:
